@@ -140,16 +140,12 @@ Definition negated_literal (v : lit) : option (res rose) :=
   | _ => None
   end.
 
-(* explainAliasedExpr's folding (any Parenthesized): "Literal Int64_%d (alias a)" of -val *)
+(* explainAliasedExpr's folding: the same as without alias (unparenthesised literal only, -0 is UInt64_0), with
+   " (alias a)" appended to the Literal line *)
 Definition aliased_negated_literal (v : lit) (alias : list N) : option (res rose) :=
-  match v with
-  | LInt64 n =>
-      Some (Ok (leaf_node (B "Literal Int64_" ++ (if n =? 0 then [] else [45]) ++ dec n ++ alias_sfx alias)))
-  | LUInt64 n =>
-      Some (if n <=? 9223372036854775808
-            then Ok (leaf_node (B "Literal Int64_-" ++ dec n ++ alias_sfx alias))
-            else OutOfFragment OofNegFloat)
-  | _ => None
+  match negated_literal v with
+  | Some r => Some (bind r (fun t => Ok (with_alias t alias)))
+  | None => None
   end.
 
 (* a nested query: its lines at depth 0, read back as one tree ([render] prints a leaf without
@@ -245,7 +241,7 @@ Fixpoint explain_expr (e : expr) : res rose :=
             bind (match operand with Some x => explain_expr x | None => Ok nil_tuple end) (fun c =>
             Ok (function_node (unary_operator_to_function op ++ alias_sfx a) [c])) in
           match op, operand with
-          | UMinus, Some (ELit v _) =>
+          | UMinus, Some (ELit v false) =>
               match aliased_negated_literal v a with Some r => r | None => generic end
           | _, _ => generic
           end
